@@ -564,6 +564,10 @@ fn resolve_regions(
         return Ok(None);
     }
 
+    // The names the user gave: a generated field (vftable pointer, padding) must not reuse one
+    let declared_names: std::collections::HashSet<String> =
+        regions.iter().filter_map(|t| t.1.name.clone()).collect();
+
     // Create vftable
     let first_base = regions.iter().map(|t| &t.1).find(|r| r.is_base);
     let (vftable, vftable_region) = vftable::build(
@@ -574,6 +578,11 @@ fn resolve_regions(
         vftable_functions,
     )?;
     if let Some(vftable_region) = vftable_region {
+        if let Some(name) = vftable_region.name.as_ref().filter(|n| declared_names.contains(*n)) {
+            anyhow::bail!(
+                "field `{name}` of type `{resolvee_path}` has the name of the generated vftable pointer field"
+            );
+        }
         if resolved
             .push(&semantic.type_registry, vftable_region)
             .is_none()
@@ -643,9 +652,15 @@ fn resolve_regions(
             is_base: _,
         } = region
         {
+            let name = format!("_field_{size:x}");
+            if declared_names.contains(&name) {
+                anyhow::bail!(
+                    "field `{name}` of type `{resolvee_path}` has the name generated for an unnamed field of this type"
+                );
+            }
             *region = Region {
                 visibility: Visibility::Private,
-                name: Some(format!("_field_{size:x}")),
+                name: Some(name),
                 doc: None,
                 type_ref: type_ref.clone(),
                 is_base: false,
